@@ -6,17 +6,16 @@ From AF Require Import Lib.Bytes Lib.Path Lib.Ops Gen.Consts Model.MemFile Model
   Proofs.MemFsBelow Proofs.CacheProof Proofs.CacheInv Proofs.CacheFrames Proofs.CacheInvOps Proofs.CacheInvCopy Proofs.CacheInvPath.
 Local Open Scope Z_scope.
 
-(* a well-formed call through the cache: well-formed for the base (the ordinary POSIX preconditions of C01 on the
-   base's current tree; handle reads with a buffer length >= 0), and not an OpenFile of a base directory that is
-   not served as a hit (defect: copied like a file, EIO) *)
+(* a well-formed call through the cache: a call of the portable class of C01 for the BASE's current tree
+   (WfOps.wf_op: the ordinary POSIX preconditions, handle reads with a buffer length >= 0, or a creating call
+   whose name passes through a regular file — refused with ENOTDIR) *)
 Definition cwf_op (dur now : Z) (st : mst * mst * list chandle) (o : op) : bool :=
-  let '(sb, sl, _) := st in
-  WfOps.wf_op sb o && match o with OpenFile p _ _ => openfile_dir_ok dur now sb sl p | _ => true end.
+  let '(sb, _, _) := st in WfOps.wf_op sb o.
 
 Theorem CInv_step dur now st o :
   CInv st -> cwf_op dur now st o = true -> CInv (fst (cache_step m_step m_step dur now st o)).
 Proof.
-  destruct st as [[sb sl] tbl]. intros C Hwf. unfold cwf_op in Hwf. apply andb_true_iff in Hwf as [Hwf Hx].
+  destruct st as [[sb sl] tbl]. intros C Hwf. unfold cwf_op in Hwf.
   assert (Hcase : WfOps.wf_op_ord sb o = true \/ wf_below sb o = true) by (now apply wf_op_cases).
   assert (Hh : forall h, op_handle_of o = Some h -> WfOps.wf_op_ord sb o = true).
   { intros h Ho. rewrite <- (wf_op_handle sb o); [exact Hwf | congruence]. }
